@@ -1334,6 +1334,18 @@ class C13(L1Prop):
             ops += ["reopen", "dumpall", "rows"]
             out.append(Case(f"c13-{k}", ops))
         out += l0_cases(rng, sizes(tier, 150, 1500))
+        # the data directory has a name of the operator's choosing
+        names = ["sync#2", "tasks%2Fwork", "really?", "a&b=c;d", "file:x?mode=ro", "it's", 'q"uote', "üñï-dir", "%", "x#", "-dash", "..dots..", "semi;colon"]
+        for k in range(sizes(tier, 13, 60)):
+            nc = rng.choice([1, 2])
+            def obs2(g, step):
+                r = rng.random()
+                if r < 0.2: return ["dumpall"]
+                if r < 0.35: return ["reopen", "dumpall"]
+                return []
+            ops, g = rand_prefix(rng, rng.randint(8, 20), nc, False, True, True, obs2)
+            ops = [f"subdir {names[k % len(names)]}"] + ops + ["reopen", "dumpall"]
+            out.append(Case(f"c13-dir-{k}", ops))
         # a chain that starts on a version the server never stored, and an upload for exactly that version
         for k in range(sizes(tier, 10, 60)):
             more = k % 5
